@@ -96,7 +96,9 @@ def run(ctx):
             if mt[0] != 'ok' or unS(mt[1]) != text:
                 ctx.disagreement('show_marker ~ Display for MarkerTreeContents', how, unS(mt[1]) if mt[0] == 'ok' else dump(mt)[:200], text)
             if d[2] != 'T':
-                ctx.failure('Display, try_to_string, contents() and serde text differ', how)
+                ctx.failure('Display, try_to_string, contents(), serde text and the marker::ser helpers (is_empty / serialize) differ', how)
+                if text == '<<TRUE marker>>':
+                    continue
             r2, out = sess.parse(text)
             if r2 is None:
                 ctx.failure('the rendered text does not parse: %s' % dump(out)[:200], how)
